@@ -17,7 +17,7 @@ RULE = ("Exhaustive: every matrix over {-1,0,1} for p=1..3 and every zero-diagon
         "float dtype. Oracle: 3-colour DFS on the non-zero pattern; is_dag must equal it, topological_ordering must "
         "return a permutation with every edge forward or raise ValueError iff cyclic, and LGANM / ANM / DRFNet "
         "constructors must raise ValueError iff cyclic. Non-trivial = some entry < 0, or a column / the total with "
-        "edges present sums to <= 0. Distinct = distinct matrices (+dtype).")
+        "edges present sums to <= 0. Distinct = distinct matrices (+dtype). Also: integer weights equal to the dtype minimum followed by the float matrix with the same bytes, relabelling into 13..70 nodes, tiny back edges.")
 ASSUMPTIONS = [
     "oracle: independent 3-colour DFS over the non-zero pattern (harness/graphs.py), cross-checked against source peeling",
     "any valid topological order is accepted; element type of the ordering is free",
